@@ -91,11 +91,13 @@ def MemDict.lookup (d : MemDict) (key : List Nat) : List Phrase :=
 def MemDict.add (d : MemDict) (key : List Nat) (p : Phrase) : Option MemDict :=
   if p.text.isEmpty then some d
   else if (layerLookup d.btree d.grave key).any (fun q => q.text == p.text) then none
-  else some { d with btree := insertSorted { key, text := p.text, freq := p.freq, time := p.lastUsed.getD 0 } d.btree }
+  else some { d with btree := insertSorted { key, text := p.text, freq := p.freq, time := p.lastUsed.getD 0 } d.btree,
+                     grave := d.grave.filter (fun g => !(g.1 == key && g.2 == p.text)) }   -- `self.graveyard.remove(&key)` (fix d795ec0)
 
 def MemDict.update (d : MemDict) (key : List Nat) (p : Phrase) (freq time : Nat) : MemDict :=
   if p.text.isEmpty then d
-  else { d with btree := insertSorted { key, text := p.text, freq, time } d.btree }
+  else { d with btree := insertSorted { key, text := p.text, freq, time } d.btree,
+                grave := d.grave.filter (fun g => !(g.1 == key && g.2 == p.text)) }   -- `self.graveyard.remove(&key)` (fix d795ec0)
 
 def MemDict.remove (d : MemDict) (key : List Nat) (text : Text) : MemDict :=
   { d with btree := d.btree.filter (fun e => !(e.key == key && e.text == text)),
